@@ -3,6 +3,7 @@ package pure
 import (
 	"math"
 	"math/big"
+	"strings"
 	"testing"
 	"time"
 
@@ -41,7 +42,7 @@ func closeTo(got float64, want *big.Rat) bool {
 }
 
 func TestC12Phi(t *testing.T) {
-	vlib.SetRule("C12", "TestC12Phi", "window size 1-64 (biased to 50 and tiny), bootstrap interval, strictly increasing arrivals up to 5x the window with intervals from 1ns to 1h scales, queries at and after the last arrival, and a peer that is queried before it is first heard from; oracle: exact rational phi (tolerance 1e-9 relative), phi==0 at arrival, monotone in t, accuracy/completeness bounds from min/max window interval, metamorphic prefix-independence; non-trivial = sequence longer than the window (eviction exercised)")
+	vlib.SetRule("C12", "TestC12Phi", "window size 1-64 (biased to 50 and tiny), bootstrap interval, node ids of 1-300 bytes, strictly increasing arrivals up to 5x the window with intervals from 1ns to 1h scales, queries at and after the last arrival, and a peer that is queried before it is first heard from; oracle: exact rational phi (tolerance 1e-9 relative), phi==0 at arrival, monotone in t, accuracy/completeness bounds from min/max window interval, metamorphic prefix-independence; non-trivial = sequence longer than the window (eviction exercised)")
 	vlib.Run(t, "C12", func(c *vlib.Case) {
 		W := c.Int("window", 1, 64)
 		if c.Chance("prod", 1, 4) {
@@ -60,10 +61,13 @@ func TestC12Phi(t *testing.T) {
 		base := time.Unix(1_700_000_000, 0)
 		w := gossip.VerifNewArrivalWindow(time.Duration(bootstrap), W)
 		fd := gossip.VerifNewFailureDetector(time.Duration(bootstrap), W)
+		// node ids are whatever the operator configures (a pod name as prefix, say)
+		id := c.OneOf("nodeID", "x", "x", strings.Repeat("n", 64), strings.Repeat("n", 65), "piko-server-statefulset-0.piko.some-long-namespace.svc.cluster.local-abcdefg", "nœud-"+strings.Repeat("é", 30), strings.Repeat("i", 300))
+		c.Header["node_id_bytes"] = len(id)
 		intervals := []int64{bootstrap}
 		now := base
 		w.Add(now)
-		fd.ReportWithTimestamp("x", now)
+		fd.ReportWithTimestamp(id, now)
 		check := func(label string) {
 			// at the arrival instant
 			if p := w.Phi(now); p != 0 {
@@ -106,7 +110,7 @@ func TestC12Phi(t *testing.T) {
 				if !closeTo(got, want) {
 					c.Fatalf("C12: phi=%v but exact value is %s (window=%d, %d arrivals, silence=%dns, %s)", got, want.FloatString(12), W, len(intervals), silence, label)
 				}
-				if got2 := fd.SuspicionLevelAt("x", qt); got2 != got {
+				if got2 := fd.SuspicionLevelAt(id, qt); got2 != got {
 					c.Fatalf("C12: detector map returns %v, window %v", got2, got)
 				}
 				if silence < 20*mn && !(got < 20) {
@@ -126,7 +130,7 @@ func TestC12Phi(t *testing.T) {
 			now = now.Add(time.Duration(iv))
 			intervals = append(intervals, iv)
 			w.Add(now)
-			fd.ReportWithTimestamp("x", now)
+			fd.ReportWithTimestamp(id, now)
 			if i == n-1 || c.Chance("checkHere", 1, 6) {
 				check("after arrival")
 			}
@@ -166,8 +170,8 @@ func TestC12Phi(t *testing.T) {
 			c.Fatalf("C12: peer first queried at T, first heard %dns later, then %d arrivals %dns apart, silent for %dns: phi=%v; with the bootstrap sample %dns first in the window the level is %s (or %s if the time before the first arrival is not a sample)", s+gap, len(uncounted)-1, d, s2, got, bootstrap, refPhi(counted, W, s2).FloatString(9), refPhi(uncounted, W, s2).FloatString(9))
 		}
 		c.Class("queried-before-first-heard")
-		fd.Remove("x")
-		if p := fd.SuspicionLevelAt("x", now.Add(time.Hour)); p != 0 {
+		fd.Remove(id)
+		if p := fd.SuspicionLevelAt(id, now.Add(time.Hour)); p != 0 {
 			c.Fatalf("C12: after Remove the node is still remembered (phi=%v)", p)
 		}
 	})
